@@ -29,6 +29,13 @@ What is EXPLORED (part b, ctx.explored): the real `decode` of EVERY registered d
     gcd not in {1, R, C} + small + seed-rotated coprime and dividing pairs (quick); Y-only errors of every weight 1..6,
     all weight-<=2 errors within one boundary (quick: on the small sizes and a seed-rotated half of the gcd-table sizes, 40 sampled elsewhere), `several defects on one boundary` (boundary_subset_errors: subsets of
     sizes 3..6 and stride patterns), the rim / corner errors, random spread weights.
+  * NaiveDecoder (run_naive_all): ALL 2^(n-k) syndromes of EVERY code of every family inside its default 10-qubit limit
+    (basic, Planar 2x2 / 2x3 / 3x2, Toric 2x2, Rotated planar 3x3, Rotated toric 2x2 / 2x4 / 4x2, Colour 3), stratified by
+    covering depth (covering_depths: least weight reaching the syndrome, own breadth-first arithmetic) — a few syndromes
+    of the lattice codes are only reached ABOVE the distance; judged by the monitor and tied to `naiveDecodeFullAll` in one
+    driver call per (code, max_qubits). quick: n <= 8 in full + the 9-qubit code on all depth-<=2 syndromes and a
+    seed-rotated part of the deeper strata; thorough: all in full x max_qubits {10, None, n, 0} and the 11..13-qubit
+    codes (max_qubits None / n) on a sample of every depth stratum (monitor only).
   Lattices with more than 100 qubits: the Lean evaluation of the monitor is made on every 4th (quick) / 2nd (thorough)
   accepted output and every rejected one (the Python evaluation on all).
   Failing-input search: a correspondence break of c02_smwpm (graph / corners / path / recovery of an SMWPM decoder) is
@@ -69,7 +76,8 @@ RULE = ('(a) modelled constructions: for every lattice size up to the tier bound
         'real decode, monitor synd(S, recovery) == syndrome in Python and in Lean (one protocol line per batch); incl. the '
         'shape grid (tall / wide x parity, up to 8) with rim- and corner-localised errors in finite- and infinite-bias '
         'contexts for the matching decoders and PlanarY on sizes up to 12x12 (all gcd classes) with Y-only errors of '
-        'weights 1..6 and several defects on one boundary. '
+        'weights 1..6 and several defects on one boundary; NaiveDecoder on all syndromes of every code of every family '
+        'with n <= 10 (quick: n <= 8 in full, n = 9 by covering-depth strata), batched tie to naiveDecodeFullAll. '
         'non-trivial = syndrome not all-zero; distinct = distinct protocol lines')
 
 
@@ -1166,19 +1174,162 @@ def run_naive(ctx, acc):
                                          n_random=(10 if q else 40), singles=True)
                 if not exh and q:
                     cases = ctx.rng.sample(cases, 16)
+            batch = []
             for e, s, _ in cases:
                 r = evaluate(ctx, acc, spec, dspec, ctx.rng.choice(EMS_ANY), ctx.rng.choice(PS), e, s, exhaustive=exh)
-                if r is not None:
-                    ctx.case('c02 naive {} {} {} {}'.format('N' if mq is None else mq, n, Smat, bits(s)),
-                             'ok ' + bits(r), nontrivial=bool(np.any(s)),
-                             meta={'kind': 'naive', 'code': list(spec), 'decoder': ['Naive', {'max_qubits': mq}],
-                                   'syndrome': bits(s), 'error': bits(e)})
+                if r is not None and not big:  # the 8- and 9-qubit codes are tied over ALL their syndromes by run_naive_all
+                    batch.append((bits(s), 'ok ' + bits(r)))
+            if batch:
+                # one driver call per (code, max_qubits): the model's candidate list is built once (naive_full_all_eq)
+                ctx.case('c02 naiveall {} {} {} {}'.format('N' if mq is None else mq, n, Smat,
+                                                           ';'.join(t for t, _ in batch)),
+                         ';'.join(v for _, v in batch), nontrivial=True,
+                         meta={'kind': 'naive', 'code': list(spec), 'decoder': ['Naive', {'max_qubits': mq}],
+                               'syndromes': [t for t, _ in batch]})
         # vectors that are NOT syndromes (toric: odd parity): the loop falls through and returns None — tie only
         if spec[0] == 'toric' and not q:
             s = np.zeros(S.shape[0], dtype=int); s[0] = 1
             r = dec_of(D('Naive', max_qubits=None)).decode(code, s)
             ctx.case('c02 naive N {} {} {}'.format(n, Smat, bits(s)), 'None' if r is None else 'ok ' + bits(r),
                      nontrivial=False, meta={'kind': 'naive-nonsyndrome'})
+
+
+def naive_family_codes(lo, hi):
+    """every code of every family (basic, planar, toric, rotated planar, rotated toric, colour) with lo <= n <= hi qubits"""
+    cands = [(5, ('five',)), (7, ('steane',))]
+    for r in range(2, hi + 1):
+        for c in range(2, hi + 1):
+            cands.append((2 * r * c - r - c + 1, ('planar', r, c)))
+            cands.append((2 * r * c, ('toric', r, c)))
+            if r >= 3 and c >= 3:
+                cands.append((r * c, ('rplanar', r, c)))
+            if r % 2 == 0 and c % 2 == 0:
+                cands.append((r * c, ('rtoric', r, c)))
+    for L in range(3, hi + 1, 2):
+        cands.append(((3 * L * L + 1) // 4, ('color', L)))
+    out = []
+    for n, spec in sorted(cands):
+        if lo <= n <= hi:
+            code, S, _ = code_of(spec)
+            if code.n_k_d[0] != n or S.shape[1] != 2 * n:
+                raise core.Infra('qubit count of {} is {} (expected {})'.format(spec, code.n_k_d[0], n))
+            out.append(spec)
+    return out
+
+
+def covering_depths(S):
+    """{syndrome (big-endian int): least weight of a Pauli with that syndrome} over the whole image of the syndrome map —
+    breadth-first over the single-qubit Paulis' syndromes (own arithmetic; two factors on one qubit merge, so the number
+    of steps is the weight). The largest value is the depth the decoder's ascending-weight search must reach."""
+    n = S.shape[1] // 2
+    gens = []
+    for q in range(n):
+        for x, z in ((1, 0), (0, 1), (1, 1)):
+            e = np.zeros(2 * n, dtype=int); e[q] = x; e[n + q] = z
+            gens.append(int(bits(py_synd(S, e)), 2) if S.shape[0] else 0)
+    dist, frontier, d = {0: 0}, [0], 0
+    while frontier:
+        d += 1
+        nxt = []
+        for a in frontier:
+            for g in gens:
+                b = a ^ g
+                if b not in dist:
+                    dist[b] = d
+                    nxt.append(b)
+        frontier = nxt
+    return dist
+
+
+NAIVE_LIMIT = 10  # NaiveDecoder's default max_qubits: the decoder's stated domain
+
+
+def run_naive_all(ctx, acc):
+    """the naive decoder on ALL 2^(n-k) syndromes of EVERY code of every family inside its default qubit limit (not only
+    the basic codes, not only syndromes of light errors): most syndromes of a lattice code are reached at weight <= d, a
+    few only deeper (covering depth > distance: Planar 2x3 15 of 128, Toric 2x2 4 of 64, Rotated planar 3x3 16 of 256),
+    so a search that stops early shows only there. Each decode goes through the property's monitor (evaluate) and ALL
+    answers of one (code, max_qubits) are compared with the Lean model in one driver call (`naiveall` =
+    naiveDecodeFullAll, `naive_full_all_eq`: the single-syndrome model mapped over the list).
+    quick: every code with n <= 8 on all syndromes with the default limit; the 9-qubit code on all syndromes of depth
+    <= 2 and a seed-rotated part of each deeper stratum. thorough: all of them on all syndromes x max_qubits in
+    {default, None, n, 0}; and the 11..13-qubit codes (outside the default limit: max_qubits None / n; no Lean
+    evaluation — the model's candidate list has 4^n entries) on a sample of every depth stratum incl. the deepest."""
+    q = ctx.quick()
+    rng = pyrandom.Random('c02-naive-all-{}'.format(ctx.seed))  # own stream: the sections after this one keep theirs
+    tally = ctx.extra.setdefault('naive_all', {})
+
+    def sweep(spec, mq, cases, lean, exh):
+        code, S, Smat = code_of(spec)
+        n = S.shape[1] // 2
+        dspec = D('Naive', max_qubits=mq)
+        d = acc.note('Naive', exh)
+        ss, replies = [], []
+        for e, s in cases:
+            t_before = d['timeouts']
+            r = evaluate(ctx, acc, spec, dspec, rng.choice(EMS_ANY), rng.choice(PS), e, s, exhaustive=exh)
+            if r is None and d['timeouts'] > t_before:
+                continue  # counted, not judged
+            ss.append(bits(s))
+            try:
+                replies.append('ok ' + bits(r) if r is not None else 'no-recovery')
+            except Exception:  # noqa: BLE001 - already reported by the monitor
+                replies.append('malformed')
+        if lean and ss:
+            ctx.case('c02 naiveall {} {} {} {}'.format('N' if mq is None else mq, n, Smat, ';'.join(ss)),
+                     ';'.join(replies), nontrivial=True,
+                     meta={'kind': 'naive', 'code': list(spec), 'decoder': ['Naive', {'max_qubits': mq}],
+                           'syndromes': ss})
+
+    for spec in naive_family_codes(1, NAIVE_LIMIT) + ([] if q else naive_family_codes(NAIVE_LIMIT + 1, 13)):
+        code, S, _ = code_of(spec)
+        n = S.shape[1] // 2
+        inside = n <= NAIVE_LIMIT
+        cases, exh = error_cases(ctx, spec, exhaustive_rank=13)
+        if not exh:
+            raise core.Infra('syndrome space of {} not enumerated'.format(spec))
+        depth = covering_depths(S)
+        if len(depth) != len(cases):
+            raise core.Infra('{}: {} syndromes enumerated, {} reached breadth-first'.format(spec, len(cases), len(depth)))
+        strata = {}
+        for e, s, _ in cases:
+            strata.setdefault(depth[int(bits(s), 2) if len(s) else 0], []).append((e, s))
+        top, dist = max(strata), code.n_k_d[2]
+        tally['x'.join(map(str, spec))] = {'n': n, 'distance': dist, 'syndromes': len(cases),
+                                             'by_depth': {str(k): len(v) for k, v in sorted(strata.items())}}
+        full = inside and (not q or n <= 8)
+        if full:
+            chosen = [c for k in sorted(strata) for c in strata[k]]
+        else:
+            chosen = []
+            for k in sorted(strata):
+                v = strata[k]
+                if inside:   # quick, 9 qubits: cost grows as 3^k C(n, k)
+                    m = len(v) if k <= 2 else max(4, len(v) // (3 if k == 3 else 4))
+                else:        # thorough, 11..13 qubits (a depth-5 decode on 12 qubits scans 2.4e5 candidates)
+                    m = 6 if k <= 3 else (4 if k == 4 else 2)
+                chosen += rng.sample(v, min(m, len(v)))
+        for e, s in chosen:
+            ctx.count('naive_depth', '{}:{}{}'.format('x'.join(map(str, spec)), depth[int(bits(s), 2) if len(s) else 0],
+                                                      '>d' if depth[int(bits(s), 2) if len(s) else 0] > dist else ''))
+        if inside:
+            mqs = [NAIVE_LIMIT] if q else [NAIVE_LIMIT, None, n, 0]
+        else:
+            mqs = [None, n]
+        for i, mq in enumerate(mqs):
+            sweep(spec, mq, chosen if (inside or i == 0) else chosen[::3], lean=inside, exh=full)
+        if inside and not q:
+            # one below the code's size: the documented ValueError, for every syndrome alike (tie only)
+            ss = [bits(s) for _, s in chosen[:8]]
+            out = []
+            for _, s in chosen[:8]:
+                try:
+                    dec_of(D('Naive', max_qubits=n - 1)).decode(code, s)
+                    out.append('no-error')
+                except ValueError:
+                    out.append('ValueError')
+            ctx.case('c02 naiveall {} {} {} {}'.format(n - 1, n, code_of(spec)[2], ';'.join(ss)), ';'.join(out),
+                     nontrivial=False, meta={'kind': 'naive-blocked'})
 
 
 # ------------------------------------------------------------------------------------------ entry points
@@ -1233,6 +1384,7 @@ def run(ctx):
         _timed(ctx, 'planar_cmwpm', run_planar_cmwpm, ctx, acc, rec)
         _timed(ctx, 'lattice_grid', run_lattice_grid, ctx, acc, rec)
     _timed(ctx, 'naive', run_naive, ctx, acc)
+    _timed(ctx, 'naive_all', run_naive_all, ctx, acc)
     _timed(ctx, 'planar_y', run_planar_y, ctx, acc)
     _timed(ctx, 'smwpm', run_smwpm, ctx, acc)
     _timed(ctx, 'tn', run_tn, ctx, acc)
@@ -1375,6 +1527,8 @@ def search(m):
     cands = []
     if meta.get('syndrome'):
         cands.append((meta['syndrome'], meta.get('error')))
+    for t in meta.get('syndromes') or []:  # a batched tie (naiveall): every syndrome of the batch
+        cands.append((t, None))
     n = S.shape[1] // 2
     yonly = meta['decoder'][0] == 'PlanarY'
     us = unit_errors(n, yonly)
